@@ -101,7 +101,10 @@ class FitProperties(dict):
                         self["optimal_fit_edelta"] and
                         "range_x" in self and
                             self["range_x"][1] == value[1]):
-                        # Ignore changes in range[0]
+                        # Ignore changes in range[0] (no reset), but
+                        # remember the requested range.
+                        super(FitProperties, self).__setitem__(
+                            key, copy.deepcopy(value))
                         return
                 # Trigger `self.reset`
                 self.reset()
